@@ -116,31 +116,52 @@ M2_YANG = """module m2 {
   yang-version 1.1;
   namespace "urn:verif:m2";
   prefix m2;
-  container c2x { leaf a { type string; } anydata ad2; leaf-list b { type int8; } }
+  container c2x { leaf a { type string; } anydata ad2; leaf-list b { type int8; }
+    list l2 { key "k"; leaf k { type int8; } leaf v { type string; } } }
   leaf top2 { type int8; }
   anyxml ax2;
+  leaf-list tb { type int8; }
 }
 """
 M2_SCHEMA = {"m2:c2x": ("container", 0), "m2:a": ("leaf", 0), "m2:ad2": ("anydata", 1), "m2:b": ("leaf-list", 2),
-             "m2:top2": ("leaf", 1), "m2:ax2": ("anyxml", 2)}
+             "m2:l2": ("list", 3), "m2:k": ("leaf", 0), "m2:v": ("leaf", 1),
+             "m2:top2": ("leaf", 1), "m2:ax2": ("anyxml", 2), "m2:tb": ("leaf-list", 3)}
 
 
-def m2_doc(rng):
+def m2_ints(rng, other=None):
+    """sorted int8 values for the system-ordered (leaf-)lists of m2: long enough to own sorting trees; given the values of
+    the other tree, mostly FEWER values, part of them new and in the gaps of the other's"""
+    if other is not None and len(other) > 2 and rng.random() < 0.7:
+        n = rng.randrange(2, len(other))
+        vals = set(rng.sample(other, rng.randrange(0, n)))
+        while len(vals) < n:
+            vals.add(rng.randrange(-30, 31))
+        return sorted(vals)
+    return sorted(set(rng.randrange(-30, 31) for _ in range(rng.randrange(0, 9))))
+
+
+def m2_doc(rng, other=None):
+    """(document, int lists used) - other: the int lists of the other tree of the case"""
+    ints = [m2_ints(rng, other[i] if other else None) for i in range(3)]
     s = ""
-    if rng.random() < 0.8:
+    if rng.random() < 0.85:
         s += '<c2x xmlns="urn:verif:m2">'
         if rng.random() < 0.7:
             s += "<a>%s</a>" % word(rng)
         if rng.random() < 0.7:
             s += "<ad2>%s</ad2>" % any_xml(rng, False)
-        for v in sorted(set(rng.randrange(-3, 4) for _ in range(rng.randrange(0, 3)))):
+        for v in ints[0]:
             s += "<b>%d</b>" % v
+        for v in ints[1]:
+            s += "<l2><k>%d</k>%s</l2>" % (v, ("<v>%s</v>" % word(rng)) if rng.random() < 0.5 else "")
         s += "</c2x>"
     if rng.random() < 0.6:
         s += '<top2 xmlns="urn:verif:m2">%d</top2>' % rng.randrange(-5, 5)
     if rng.random() < 0.6:
         s += '<ax2 xmlns="urn:verif:m2">%s</ax2>' % any_xml(rng, True)
-    return s
+    for v in ints[2]:
+        s += '<tb xmlns="urn:verif:m2">%d</tb>' % v
+    return s, ints
 
 
 def word(rng):
@@ -406,7 +427,7 @@ def schema_desc(m, with_m2=False, ext=None):
                 if case is None and (t is owner or t == owner):
                     fl = fl + ns
         for pos, n in enumerate(fl):
-            entry(n.module.name if getattr(n, "module", None) is not None else m.name, n, base + pos, 2 if n.module is ext else 0)
+            entry(n.module.name if getattr(n, "module", None) is not None else m.name, n, base + pos, 0)
             if n.kind in ("container", "list"):
                 rec(n.children, n)
     rec(m.nodes)
@@ -420,7 +441,7 @@ def schema_desc(m, with_m2=False, ext=None):
                 rec(n.children, n)
     if with_m2:
         for k, (kind, pos) in M2_SCHEMA.items():
-            S[k] = {"k": kind, "key": False, "nk": 0, "uo": False, "ord": pos, "mi": 1}
+            S[k] = {"k": kind, "key": k == "m2:k", "nk": 1 if kind == "list" else 0, "uo": False, "ord": pos, "mi": 1}
     return S
 
 
@@ -499,7 +520,7 @@ def pretty(dump, limit=900):
                 pass
         elif v.startswith("a") and len(v) > 24:
             v = v[:24] + ".."
-        out.append("%s%s%s %s [%s]%s%s" % ("  " * int(f[0]), "?" if f[1].startswith("?") else "", f[2], v, f[4],
+        out.append("%s%s%s %s [%s]%s%s" % ("  " * int(f[0]), "?" if f[1].startswith("?") else "" if f[1] == "m1" else f[1] + ":", f[2], v, f[4],
                                           (" priv=" + f[5]) if f[5] != "0" else "", " " + ":".join(f[6:]) if len(f) > 6 else ""))
     s = " / ".join(out)
     return s if len(s) <= limit else s[:limit] + " ..."
@@ -651,6 +672,25 @@ def add_new(n):
         add_new(c)
 
 
+def any_equal(a, b):
+    """equality of two anydata values as the merge sees it (lyd_compare_single): same representation and content; in a
+    data tree the metadata / attributes of the nodes do not count"""
+    if a == b:
+        return True
+    if not (a.startswith("at") and b.startswith("at")):
+        return False
+
+    def bare(v):
+        out = []
+        for ent in unhex(v[2:]).decode("utf-8", "replace").split(";"):
+            f = ent.split(":")
+            if len(f) > 3 and f[3].startswith("at"):
+                f[3] = "at" + hexs(bare(f[3]))
+            out.append(":".join(f[:6]))
+        return ";".join(out)
+    return bare(a) == bare(b)
+
+
 def merge_sibling(S, tlist, src, opts, log):
     k = kind_of(S, src)
     t = merge_find(S, tlist, src)
@@ -685,7 +725,7 @@ def merge_sibling(S, tlist, src, opts, log):
         if "d" in t.flags and "d" not in src.flags:
             t.flags = t.flags.replace("d", "")
     elif k in ("anydata", "anyxml"):
-        if t.val != src.val:
+        if not any_equal(t.val, src.val):
             t.val = src.val
             fl = set(src.flags)
             if not opts & MERGE_WITH_FLAGS:
@@ -908,6 +948,7 @@ class DupMatrix(Oracle):
     QUICK, THOROUGH = 240, 2500
     CROSS_BIAS = 0.0            # share of the same-context entry points turned into their *_to_ctx variant
     ROUNDTRIP = 0.15            # share of the cross-context duplicates that are duplicated back
+    TWIN_PARENT = 0.0
     CLASSES_FIRST = []
 
     def make_case(self, rng, i):
@@ -1016,6 +1057,12 @@ class DupMatrix(Oracle):
                         else:
                             names = {anc[-1].key()} if anc and not anc[-1].opq else set()
                         cand = [j for j, (n, _, _, _) in enumerate(Fl1) if not n.opq and n.key() in names]
+                        if (o & DUP_WITH_PARENTS) and rng.random() < self.TWIN_PARENT:
+                            # a parent named like an ancestor but of the OTHER module: must be refused
+                            an = {a.name for a in anc if not a.opq}
+                            twin = [j for j, (n, _, _, _) in enumerate(Fl1) if not n.opq and n.name in an and
+                                    n.key() not in {a.key() for a in anc if not a.opq} and kind_of(S, n) in ("container", "list")]
+                            cand = twin or cand
                         if cand:
                             pj = rng.choice(cand)
                     if pj is None:
@@ -1186,7 +1233,9 @@ class DupMatrix(Oracle):
                     keep.pop(t, None)
                 if op == "dup":
                     sctx[t] = sctx.get(w[1].split("#")[0], "c0")
-                if op in ("xanyset", "xopaq") and res != "-" and rc(res) != 0:
+                if op in ("xanyset", "xopaq") and res != "-" and rc(res) != 0 and not (op == "xanyset" and w[2] == "b" and rc(res) == 6):
+                    # (a LYB value that cannot be printed - sibling hash collision, known C01 finding lyb-hash-collision -
+                    # leaves the node as it was)
                     return (None, "setup command failed: %s -> %s" % (c[:60], res[:40]))
         if pend:
             return (None, "script error: expectation without a dump")
@@ -1221,9 +1270,9 @@ def family_case(rng, i, merge=False):
     inject_features(rng, m)
     d0, d1 = doc_of(m, f0, rpc), doc_of(m, f1, rpc)
     if not rpc:
-        x = m2_doc(rng)
+        x, ints = m2_doc(rng)
         d0 += x
-        d1 += x if (merge and r >= 0.85) else m2_doc(rng)
+        d1 += x if (merge and r >= 0.85) else m2_doc(rng, ints)[0]
     fe = rng.choice([("f1", "-"), ("-", "f1"), ("f1", "f1")])
     mods = [[(m.yang(), fe[0]), (ext.yang(), "-"), (M2_YANG, "-")], [(M2_YANG, "-"), (m.yang(), fe[1]), (ext.yang(), "-")]]
     return {"S": schema_desc(m, True, ext), "mods": mods, "ns": m.ns, "rpc": rpc, "opaq": False, "doc0": d0, "doc1": d1,
@@ -1241,6 +1290,7 @@ class DupFamilies(DupMatrix):
     COMBOS = 7
     CROSS_BIAS = 0.6
     ROUNDTRIP = 0.5
+    TWIN_PARENT = 0.3
     CLASSES_FIRST = ["mod-m3", "same-name-sibling", "mod-m3", "below-m3", "same-name-sibling", "mod-m3"]
 
     def make_case(self, rng, i):
@@ -1271,6 +1321,8 @@ class MergeKinds(Oracle):
         ig = yanggen.InstGen(rng, meta_prob=0.15 if i % 3 else 0.0)
         if i % 5 == 0:
             ig.edp = 0.8
+        if i % 3 == 1:
+            ig.max_inst = 9             # long (leaf-)lists: sorting trees, recycled tree nodes
         schema = m.rpcs[0][1] if rpc else m.nodes
         ft = ig.children_of(schema)
         add_any(rng, ft, schema)
@@ -1286,8 +1338,9 @@ class MergeKinds(Oracle):
             fs = [n.clone() for n in ft]        # source == target
         dt, ds = doc_of(m, ft, rpc), doc_of(m, fs, rpc)
         if not rpc:
-            dt += m2_doc(rng)
-            ds = dt if r >= 0.85 else ds + m2_doc(rng)
+            x, ints = m2_doc(rng)
+            dt += x
+            ds = dt if r >= 0.85 else ds + m2_doc(rng, ints)[0]
         return {"S": schema_desc(m, True), "mods": [[(m.yang(), "-"), (M2_YANG, "-")]], "ns": m.ns, "rpc": rpc,
                 "doc0": dt, "doc1": ds, "same": r >= 0.85}
 
@@ -1353,7 +1406,13 @@ class MergeKinds(Oracle):
                     modarg = [rng.choice(self.MODS)]
                 # working copies: target t2, source t3
                 s.add("dup", "t0", "t2", DUP_RECURSIVE | DUP_WITH_FLAGS)
-                self.copy_source(s)
+                if (o & MERGE_DESTRUCT) and self.TCTX == 0 and rng.random() < 0.5:
+                    # a consumed source that OWNS the sorting trees of its (leaf-)lists (freshly parsed, not a duplicate):
+                    # their nodes are recycled for the lists of the target, which has none (duplicate)
+                    parse_cmd(s, 0, 3, case["doc1"], case["rpc"])
+                    first = 0
+                else:
+                    self.copy_source(s)
                 s.add("xdump", "t2")
                 s.add("xdump", "t3")
                 s.add("xmerge", e, "t2", "t3#%d" % self.top_index(FS, first), o, *modarg)
@@ -1477,7 +1536,9 @@ class MergeKinds(Oracle):
                 t = (w[2] if op in ("dup", "xopaq") else w[1]).split("#")[0].rstrip("^")
                 last[t] = None
                 pend.pop(t, None)
-                if op in ("xanyset", "xopaq") and res != "-" and rc(res) != 0:
+                if op in ("xanyset", "xopaq") and res != "-" and rc(res) != 0 and not (op == "xanyset" and w[2] == "b" and rc(res) == 6):
+                    # (a LYB value that cannot be printed - sibling hash collision, known C01 finding lyb-hash-collision -
+                    # leaves the node as it was)
                     return (None, "setup command failed: %s -> %s" % (c[:60], res[:40]))
         if pend:
             return (None, "script error: expectation without a dump")
